@@ -195,3 +195,18 @@ reg["C16"]["harnesses"] += [dict(h, reach=["committed", "failed"]) for h in stor
 _res = {"name": "VH_SN_Resolve", "pkg": "internal/app/subsystems/aio/sender", "labels": ["C19:"], "reach": ["physical", "logical", "configured-target"]}
 reg["C19"]["harnesses"].append(_res)
 reg["C13"]["harnesses"].append(dict(_res))
+
+HTTP = "internal/app/subsystems/api/http"
+HTTP_H = ["ReadPromise", "CreatePromise", "CreatePromiseAndTask", "CompletePromise", "CreateCallback", "CreateSubscription", "ReadSchedule", "CreateSchedule", "DeleteSchedule",
+          "AcquireLock", "ReleaseLock", "HeartbeatLocks", "ClaimTask", "CompleteTask", "HeartbeatTasks"]
+def http(labels):
+    out = [{"name": "VH_H_" + n, "pkg": HTTP, "labels": labels, "opts": dict(E2EOPT), "reach": ["reply", "kernel-error", "refused-by-front-end"]} for n in HTTP_H]
+    out += [{"name": "VH_H_" + n, "pkg": HTTP, "labels": labels, "tier": "thorough", "opts": {"slots.callbacks": 0, "slots.locks": 0, "slots.schedules": 1, "slots.promises": 1, "slots.tasks": 0, "faults": 0},
+             "reach": ["reply", "refused-by-front-end"]} for n in ["SearchPromises", "SearchSchedules"]]
+    return out
+reg["C13"]["harnesses"] += http(["C13:"])
+reg["C15"]["harnesses"] += http(["C15:", "C12:"])
+for k in ("C13", "C15"):
+    reg[k]["outside"] = [o for o in reg[k]["outside"] if not o.startswith("the HTTP front end")]
+    reg[k]["outside"].append("gin's router, JSON/header decoding and validator are replaced by a contract stub: ShouldBind* either fails or yields ANY value satisfying the struct's binding tags (enums with their own UnmarshalJSON take their declared constants), Param returns an arbitrary string (catch-all parameters with gin's leading '/'); seeded change C20-A (UseRawPath) lives inside gin's router and is not detectable")
+    reg[k]["explanation"] += "; the 17 HTTP handlers are executed the same way (real handler, real api.Process, real coroutine) on requests produced by the binding contract stub"
